@@ -184,6 +184,9 @@ impl<'a, 'tcx> Cx<'a, 'tcx> {
                         }
                     } else if let ty::Closure(cdid, _) = base.kind() {
                         e.s("closure", &canon(tcx, *cdid));
+                    } else if let ty::Tuple(elems) = base.kind() {
+                        e.s("tuple", &tys(base));
+                        e.n("arity", elems.len() as i128);
                     }
                     e.s("n", &fname);
                     e.s("ty", &tys(fty));
